@@ -14,7 +14,9 @@ Decides:
                    pre-attempt state back, so the word stays available to the strict positionals (rows of the parse_option table, C06).
  S carried     every function that returns a ParsePositional built from an existing one (help(), the derived Clone) carries `position`
                over; only strict()/non_strict() set it, each to its own constant.
-Does not decide: interaction with completion (C14)."""
+ C completion  when completing, "only a positional can stand here" is decided by the item BEFORE the word being completed (a PosWord there),
+               never by the spelling or kind of the word itself (shared with C14).
+Does not decide: which candidates completion offers (C14)."""
 import re
 from core import *
 from dataflow import *
@@ -37,11 +39,15 @@ def run(ctx):
         ctx.guard(consumers.accept_sets, ctx, cfg, fs, 'A.accept-sets')
         ctx.guard(strictness, ctx, cfg, fs)
         ctx.guard(position_carried, ctx, cfg, fs)
+        if cfg != 'none':
+            import c14
+            ctx.guard(c14.pos_only_source, ctx, cfg, fs, 'C.completion')
         import wiring
         ctx.guard(wiring.builders, ctx, cfg, fs, 'S.strictness', r'^(positional|params::build_positional|params::ParsePositional::<T>::(strict|non_strict|help))$')
         ctx.guard(classes, ctx, cfg, fs)
         ctx.guard(helpflag, ctx, cfg, fs)
-        import c06, c08
+        import c06, c08, c05
+        ctx.guard(c08.keep_only, ctx, lambda: c05.snapshot(ctx, cfg, fs), lambda o: 'restore-on-caught-failure' in o.key, 'R.restore')
         ctx.guard(c08.keep_only, ctx, lambda: c06.k3(ctx, cfg, fs, c06.k1(ctx, cfg, fs)), lambda o: o.rule == 'K3.consult' and 'NonStrictPos' in o.key, 'R.restore')
 
 def tokenizer(ctx, cfg, fs):
